@@ -27,6 +27,15 @@ for sid in sorted(os.listdir(os.path.join(V, 'seeded'))):
     else:
         out = 'not run'
     rows.append(f'| {sid} | {title} | {", ".join(meta.get("files_touched", []))[:60]} | {out} |')
-print('| id | change | file | detected by |')
-print('|---|---|---|---|')
-print('\n'.join(rows))
+table = '| id | change | file | detected by |\n|---|---|---|---|\n' + '\n'.join(rows)
+import sys
+if '--write' in sys.argv:
+    dp = os.path.join(V, 'DESIGN.md')
+    s = open(dp).read()
+    a, b = s.index('<!-- SEEDED_TABLE_BEGIN -->'), s.index('<!-- SEEDED_TABLE_END -->')
+    s = s[:a] + '<!-- SEEDED_TABLE_BEGIN -->\n' + table + '\n' + s[b:]
+    open(dp, 'w').write(s)
+    n = sum(1 for r in rows if 'own check' in r)
+    print(f'{len(rows)} rows written; own check caught {n}')
+else:
+    print(table)
